@@ -9,34 +9,37 @@ EXTENDS Rat
 
 (* ------------------------------ integers ------------------------------ *)
 \* falling factorial n (n-1) ... (n-d+1); FF(n,0) = 1; 0 if d > n
-RECURSIVE FF(_, _)
-FF(n, d) == IF d = 0 THEN 1 ELSE IF d > n THEN 0 ELSE n * FF(n - 1, d - 1)
+RECURSIVE FFrec(_, _)
+FFrec(n, d) == IF d = 0 THEN 1 ELSE IF d > n THEN 0 ELSE n * FFrec(n - 1, d - 1)
+\* (table of the values used: a constant, evaluated once by TLC; 12!/1! still fits 32 bits)
+FFTable == [n \in 0..12 |-> [d \in 0..12 |-> FFrec(n, d)]]
+FF(n, d) == IF n \in 0..12 /\ d \in 0..12 THEN FFTable[n][d] ELSE FFrec(n, d)
 Fact(n) == FF(n, n)
 
 (* ------------------------------- vectors ------------------------------ *)
-VZero(n) == [i \in 1..n |-> Zero]
-VAdd(x, y) == [i \in 1..Len(x) |-> RAdd(x[i], y[i])]
-VSub(x, y) == [i \in 1..Len(x) |-> RSub(x[i], y[i])]
-VScale(a, x) == [i \in 1..Len(x) |-> RMul(a, x[i])]
-VUnit(n, j) == [i \in 1..n |-> IF i = j THEN One ELSE Zero]
-
+VZero(n) == TLCEval([i \in 1..n |-> Zero])
+VAdd(x, y) == TLCEval([i \in 1..Len(x) |-> RAdd(x[i], y[i])])
+VSub(x, y) == TLCEval([i \in 1..Len(x) |-> RSub(x[i], y[i])])
+VScale(a, x) == TLCEval([i \in 1..Len(x) |-> RMul(a, x[i])])
+VUnit(n, j) == TLCEval([i \in 1..n |-> IF i = j THEN One ELSE Zero])
 (* ------------------------------- matrices ----------------------------- *)
 NRows(A) == Len(A)
 NCols(A) == IF Len(A) = 0 THEN 0 ELSE Len(A[1])
-MZero(n, m) == [i \in 1..n |-> [j \in 1..m |-> Zero]]
-Transpose(A) == [j \in 1..NCols(A) |-> [i \in 1..NRows(A) |-> A[i][j]]]
-MatVec(A, x) == [i \in 1..NRows(A) |-> RDot(A[i], x)]
+MZero(n, m) == TLCEval([i \in 1..n |-> [j \in 1..m |-> Zero]])
+Transpose(A) == TLCEval([j \in 1..NCols(A) |-> [i \in 1..NRows(A) |-> A[i][j]]])
+MatVec(A, x) == TLCEval([i \in 1..NRows(A) |-> RDot(A[i], x)])
 MatMul(A, B) == LET Bt == TLCEval(Transpose(B))
-                IN [i \in 1..NRows(A) |-> [j \in 1..NCols(B) |-> RDot(A[i], Bt[j])]]
-Col(A, j) == [i \in 1..NRows(A) |-> A[i][j]]
-ColMat(x) == [i \in 1..Len(x) |-> <<x[i]>>]
-
+                IN TLCEval([i \in 1..NRows(A) |-> [j \in 1..NCols(B) |-> RDot(A[i], Bt[j])]])
+Col(A, j) == TLCEval([i \in 1..NRows(A) |-> A[i][j]])
+ColMat(x) == TLCEval([i \in 1..Len(x) |-> <<x[i]>>])
 (***************************************************************************)
 (* SolveDef(A, B): the X with A X = B, by Gauss-Jordan elimination with    *)
 (* first-non-zero pivoting (exact arithmetic needs no magnitude pivoting). *)
 (* A is n x n, B is n x m.  Undefined (TLC error) if A is singular.         *)
 (* Every intermediate is forced with TLCEval: TLC's lazy evaluation makes  *)
-(* the elimination exponential otherwise.                                  *)
+(* the elimination exponential otherwise.  (The same holds for every       *)
+(* sequence constructor in these modules: [k \in S |-> e] is a lazy lambda  *)
+(* in TLC whose every application re-evaluates e, so results are forced.)  *)
 (***************************************************************************)
 \* returns <<>> when A is singular
 RECURSIVE Elim(_, _, _)
@@ -74,14 +77,15 @@ IsNonsingular(A) == TLCEval(Elim(TLCEval(A), 1, NRows(A))) # <<>>
 (* ------------------------------ polynomials --------------------------- *)
 PolyEval(c, x) == RHorner(c, x)
 \* d-th derivative as a polynomial (empty sequence = zero polynomial)
-PolyDeriv(c, d) == [k \in 1..(IF Len(c) > d THEN Len(c) - d ELSE 0) |-> RMul(RInt(FF(k - 1 + d, d)), c[k + d])]
+PolyDeriv(c, d) == TLCEval([k \in 1..(IF Len(c) > d THEN Len(c) - d ELSE 0) |-> RMul(RInt(FF(k - 1 + d, d)), c[k + d])])
 PolyEvalD(c, x, d) == PolyEval(PolyDeriv(c, d), x)
 PolyMul(a, b) ==
     IF Len(a) = 0 \/ Len(b) = 0 THEN <<>>
-    ELSE [k \in 1..(Len(a) + Len(b) - 1) |->
-            LET lo == IF k - Len(b) + 1 > 1 THEN k - Len(b) + 1 ELSE 1
-                hi == IF k < Len(a) THEN k ELSE Len(a)
-            IN RSum([i \in 1..(hi - lo + 1) |-> RMul(a[lo + i - 1], b[k + 1 - (lo + i - 1)])])]
+    ELSE LET aa == TLCEval(a)  bb == TLCEval(b)
+         IN TLCEval([k \in 1..(Len(aa) + Len(bb) - 1) |->
+            LET lo == IF k - Len(bb) + 1 > 1 THEN k - Len(bb) + 1 ELSE 1
+                hi == IF k < Len(aa) THEN k ELSE Len(aa)
+            IN RSum([i \in 1..(hi - lo + 1) |-> RMul(aa[lo + i - 1], bb[k + 1 - (lo + i - 1)])])])
 \* integral over [0, x]
 PolyInt(c, x) == RSum([k \in 1..Len(c) |-> RMul(RDiv(c[k], RInt(k)), RPow(x, k))])
 \* sum_k |c_k x^k| : the magnitude a Horner evaluation is assembled from
